@@ -87,7 +87,18 @@ def show(t, depth=0):
         return "%s" % (t[2] or "_%d" % t[1])
     if k == "edited":
         return "%s edited in place (%s)" % (show(t[1], d), "; ".join(t[2]))
+    if k == "mutated":
+        return "%s after `&mut` at %s" % (show(t[1], d), "bb%s" % (t[2][1],))
     return "%s%r" % (k, t[1:])
+
+
+def unmutated(t):
+    """(base term, [sites]) of a value that was handed out through `&mut` (DESIGN 3.18): peel the `mutated` wrappers"""
+    sites = []
+    while isinstance(t, tuple) and t and t[0] == "mutated":
+        sites.append(t[2])
+        t = t[1]
+    return t, sites
 
 
 def subterms(t):
@@ -187,6 +198,13 @@ def mk_tryok(prog, r):
     return ("tryok", r)
 
 
+# scalar-like data whose in-place mutation through `&mut` makes a new value (collections that are BUILT through `&mut` - the output
+# map, element lists, iterators - are modelled by veclen / seq / effects instead)
+MUT_TRACKED = {"alloc::vec::Vec<u8>", "alloc::string::String", "core::option::Option<alloc::vec::Vec<u8>>",
+               "core::option::Option<alloc::string::String>", "ciborium::value::Value",
+               "core::option::Option<ciborium::value::Value>"}
+
+
 class Prov:
     """Per-function provenance engine."""
 
@@ -212,6 +230,14 @@ class Prov:
                 if s["k"] == "assign" and not s["dst"]["p"]:
                     defs.append((s["dst"]["l"], bi, si, s["rv"]))
                     by_block.setdefault(bi, []).append(len(defs) - 1)
+                    rv = s["rv"]
+                    if rv["k"] == "ref" and rv.get("mut") and not rv.get("fake") \
+                            and not (rv["place"]["p"] and rv["place"]["p"][0][0] == "deref") \
+                            and fn.local_ty(rv["place"]["l"]) in MUT_TRACKED and rv["place"]["l"] != s["dst"]["l"]:
+                        # `&mut x` of a byte string / text / CBOR value held in a local: whoever gets the reference may edit x,
+                        # so from here on x is no longer what its definition says (DESIGN 3.18)
+                        defs.append((rv["place"]["l"], bi, si, {"k": "mutborrow", "l": rv["place"]["l"]}))
+                        by_block.setdefault(bi, []).append(len(defs) - 1)
             t = b["term"]
             if t["k"] == "call" and not t["dest"]["p"]:
                 defs.append((t["dest"]["l"], bi, "term", t))
@@ -528,6 +554,8 @@ class Prov:
 
     def rvalue_term(self, rv, bb, idx):
         k = rv["k"]
+        if k == "mutborrow":
+            return ("mutated", self.local_term(rv["l"], bb, idx), (self.fn.key, bb, idx))
         if k == "use":
             return self.operand_term(rv["op"], bb, idx)
         if k == "ref":
